@@ -9,7 +9,8 @@ ensures  the result is initialised by _init(inst, context, concepts) with `conce
   extent/intent as stored, index = canonical position, upper_neighbors = the members of the upper covers each once in
   shortlex order, lower_neighbors likewise in longlex order  (LatInv.1/2/5).
 lemma used as instance: L-SORTED-CANONICAL -- a permutation of the canonical list sorted by the (strictly increasing) shortlex
-  rank is the canonical list (a strictly increasing bijection of [0,N) is the identity; ASSUMED, validated by enumeration).
+  rank is the canonical list (a strictly increasing bijection of [0,N) is the identity; proved in Lean: lemmas/Seq.lean
+  `strictMono_fin_eq_id`, `sorted_perm_range`).
 """
 from z3 import And, BoolSort, BoolVal, ForAll, Function, If, Implies, Int, IntSort, Ints, MultiPattern, Not, Or
 
@@ -385,6 +386,6 @@ for _u in (True, False):
                   assumptions=['requires: the stored list is (a permutation of) the canonical list of the lattice of this context, index lists without repeats (trusted input)',
                                'builtin sum of distinct powers of two = the natural number with exactly those bits (assumed arithmetic contract)',
                                'list.sort / sorted: permutation, ascending by key; dict(enumerate(list)) snapshots the arrangement at that time',
-                               'lemma L-SORTED-CANONICAL (assumed): sorting a permutation of the canonical list by the strictly increasing rank gives the canonical list',
+                               'lemma L-SORTED-CANONICAL (Lean: lemmas/Seq.lean strictMono_fin_eq_id / sorted_perm_range): sorting a permutation of the canonical list by the strictly increasing rank gives the canonical list',
                                'contract of _init (unit lattices._init)'],
                   linkage=[('type(lat)._fromlist', None)]))
